@@ -10,7 +10,8 @@ LEVEL = "exploration"
 RULE = ("RPDO tables (every subset of the 4 channels x every synchronous/asynchronous assignment, enumerated) and random tables x mappings "
         "incl. dummy entries 0002h..0007h at every position, 24-bit mappings and objects of 5, 6 and 8 bytes (<= 8 bytes) x histories of RPDO frames (DLC >= mapped "
         "length), SYNCs (before / after / without reception, repeated), local writes, NMT changes, frames for disabled RPDOs and other "
-        "identifiers, COPdoReceive veto; after EVERY step the whole object storage is compared with the reference model, plus "
+        "identifiers (incl. 80000000h, flag and extended bits on top of configured identifiers), COPdoReceive veto, reconfiguration through SDO "
+        "between reception and SYNC (refused COB-ID write while valid, invalidate / change type / re-map / re-validate); after EVERY step the whole object storage is compared with the reference model, plus "
         "COPdoReceive / COPdoSyncUpdate callbacks; non-trivial = history in which >= 1 RPDO was applied; distinct by (table, script)")
 ASSUMPTIONS = ["frames shorter than the mapped length are not generated", "mapped objects are not asynchronous TPDO sources",
                "RPDO identifiers are pairwise distinct"]
@@ -196,7 +197,74 @@ def run_history(res, exe, rng, first, chans=None, sync_mask=None):
                 evs = sim.cmd("wr %x %x %d %x" % (k[0], k[1], w, v))
                 if check(evs, 0, []) is not True:
                     return
-            elif x < 0.86:
+            elif x < 0.79 and rps and mode in (PREOP, OP):
+                # reconfiguration through SDO between receptions and SYNCs: a refused write changes nothing (a frame waiting for its SYNC
+                # still takes effect), an invalidated RPDO drops what it had received, a re-validated one starts empty with the stored settings
+                rp = rng.choice(rps)
+                ci = 0x1400 + rp.num
+
+                def wr(sub, val, width, accept):
+                    script.append("sdo wr %x:%d=%x" % (ci, sub, val))
+                    code, evs = S.sdo_write(sim, nid, ci if sub < 10 else 0x1600 + rp.num, sub % 10, val, width)
+                    if accept and code is not None:
+                        return fail("reconfig/refused", "write %x to %x:%d refused with %r, reference: accepted" % (val, ci, sub, code))
+                    if not accept and code is None:
+                        return fail("reconfig/accepted", "write %x to %x:%d accepted, reference: refused (PDO is valid)" % (val, ci, sub))
+                    if accept:
+                        for j_, (k_, tok_) in enumerate(zip(order, sim.dump())):
+                            if k_[0] in (ci, 0x1600 + rp.num):
+                                base[j_] = tok_
+                    return check(evs, 0, [])
+                if rng.random() < 0.5 and mode == OP and not (rp.cobid & 0x80000000):
+                    data = gen.rand_bytes(rng, 8)
+                    script.append("rx RPDO%d %s" % (rp.num, data.hex()))
+                    evs = sim.rx(rp.cobid & 0x7FF, data)
+                    if not veto:
+                        if rp.typ > 240:
+                            apply(rp, data, objs); applied += 1
+                        else:
+                            rp.pending = data
+                    if check(evs, 1, []) is not True:
+                        return
+                if not (rp.cobid & 0x80000000) and rng.random() < 0.4:
+                    v = rng.choice([rp.cobid, rp.cobid, (rp.cobid & ~0x7FF) | 0x181 + nid, rp.cobid ^ 1])
+                    if wr(1, v, 4, False) is not True:
+                        return
+                    res.counters["refused_while_pending"] += 1 if rp.pending is not None else 0
+                else:
+                    if not (rp.cobid & 0x80000000):
+                        if wr(1, rp.cobid | 0x80000000, 4, True) is not True:
+                            return
+                        rp.cobid |= 0x80000000
+                        res.counters["dropped_pending"] += 1 if rp.pending is not None else 0
+                        rp.pending = None
+                    if rng.random() < 0.5:
+                        t = rng.choice([0, 1, 240, 254, 255])
+                        if wr(2, t, 1, True) is not True:
+                            return
+                        rp.typ = t
+                    if rng.random() < 0.5:
+                        small = [(i_, s_, w_) for (i_, s_, w_) in ((0x2200, j, [1, 2, 4][j % 3]) for j in range(12))]
+                        rng.shuffle(small)
+                        nm, tot = [], 0
+                        for (i_, s_, w_) in small[:rng.randint(0, 5)]:
+                            if tot + w_ <= 8:
+                                nm.append((i_, s_, 8 * w_)); tot += w_
+                        if wr(10, 0, 1, True) is not True:
+                            return
+                        for j, m_ in enumerate(nm):
+                            if wr(11 + j, gen.maplink(*m_), 4, True) is not True:
+                                return
+                        if wr(10, len(nm), 1, True) is not True:
+                            return
+                        rp.maps = nm
+                    if rng.random() < 0.85:
+                        if wr(1, rp.cobid & 0x7FFFFFFF, 4, True) is not True:
+                            return
+                        rp.cobid &= 0x7FFFFFFF
+                        rp.pending = None
+                        res.counters["revalidated"] += 1
+            elif x < 0.88:
                 cs = rng.choice([1, 1, 1, 128, 2])
                 script.append("nmt %d" % cs)
                 evs = sim.rx(0, bytes([cs, nid]))
@@ -207,10 +275,13 @@ def run_history(res, exe, rng, first, chans=None, sync_mask=None):
                         rp.pending = None
                 if check(evs, 0, []) is not True:
                     return
-            elif x < 0.94:
+            elif x < 0.95:
                 cid = rng.choice([0x200 + 0x100 * c + nid + d for c in range(4) for d in (1, -1)] + [0x180 + nid, 0x300, 0x7FF])
                 if any((rp.cobid & 0x7FF) == cid for rp in rps):
                     continue
+                if rng.random() < 0.3:
+                    # identifiers beyond 11 bit: the "not valid" flag value itself, flag and extended bits on top of a configured identifier
+                    cid = rng.choice([0x80000000, 0x40000000, 0x20000000, 0] + [(r_.cobid & 0x7FF) | f_ for r_ in rps for f_ in (0x80000000, 0x20000000, 0x40000000, 0x800)])
                 script.append("rx other id %x" % cid)
                 evs = sim.rx(cid, gen.rand_bytes(rng, 8))
                 if check(evs, 0, []) is not True:
@@ -268,6 +339,9 @@ def finish(total, tier):
     p = []
     if total.counters["applied"] < 2000:
         p.append("only %d RPDO applications observed" % total.counters["applied"])
+    if total.counters["refused_while_pending"] < 40 or total.counters["revalidated"] < 300 or total.counters["dropped_pending"] < 40:
+        p.append("too few reconfigurations around a waiting frame (%d refused, %d invalidated, %d re-validations)" % (
+            total.counters["refused_while_pending"], total.counters["dropped_pending"], total.counters["revalidated"]))
     if len(total.states) < 60:
         p.append("only %d (channel subset, sync assignment) tables exercised" % len(total.states))
     return p
